@@ -41,6 +41,19 @@ static void *work(void *arg)
              j->id, j->id, r % 100000, j->id, round, inc, r % 77, r & 0xffff, j->id + 1, r % 9000 + 1000, r % 97 + 1);
     fprintf(t, "read_string %d\n", config_read_string(&c, text));
     if (round % 3 == 1) { fprintf(t, "bad %d %s %d\n", config_read_string(&c, "a = 1;\na = ;"), config_error_text(&c), config_error_line(&c)); config_read_string(&c, text); }
+    /* every kind of failing read, each thread with its own names; the error record is read only after more work,
+     * so that a record living in shared storage would have been overwritten by another thread meanwhile */
+    { config_t e1, e2, e3; char bad1[160], bad2[160]; const char *t1, *t2, *t3; int l1, l2, l3;
+      config_init(&e1); config_init(&e2); config_init(&e3);
+      snprintf(bad1, sizeof bad1, "x = 1;\n@include \"missing-%d-%d.cfg\"\n", j->id, round);
+      snprintf(bad2, sizeof bad2, "d%d = 1;\nd%d = 2;\n", j->id, j->id);
+      config_read_string(&e1, bad1); config_read_string(&e2, bad2); config_read_string(&e3, "m = [1, \"two\"];");
+      config_read_string(&c, text);
+      t1 = config_error_text(&e1); l1 = config_error_line(&e1); t2 = config_error_text(&e2); l2 = config_error_line(&e2);
+      t3 = config_error_text(&e3); l3 = config_error_line(&e3);
+      fprintf(t, "errors [%s] %d [%s] %d [%s] %d missing-file %d\n", t1 ? t1 : "-", l1, t2 ? t2 : "-", l2, t3 ? t3 : "-", l3,
+              config_read_file(&e1, "no-such-dir/none.cfg"));
+      config_destroy(&e1); config_destroy(&e2); config_destroy(&e3); }
     root = config_root_setting(&c);
     g = config_setting_add(root, "extra", CONFIG_TYPE_GROUP);
     for (i = 0; i < 20; i++) { char nm[16]; snprintf(nm, sizeof nm, "e%d", i); a = config_setting_add(g, nm, CONFIG_TYPE_INT); config_setting_set_int(a, i * j->id + round); }
